@@ -5,36 +5,176 @@ package meta
 import (
 	"go/ast"
 	"go/token"
+	"os"
+	"path/filepath"
 	"strconv"
 	"strings"
 
 	"verif/harness/internal/fx"
 )
 
-func intConsts(f *ast.File) map[string]int64 {
-	env := map[string]int64{}
-	if f == nil {
-		return env
-	}
-	for _, d := range f.Decls {
-		gd, ok := d.(*ast.GenDecl)
-		if !ok || gd.Tok != token.CONST {
-			continue
+// evalInt evaluates a constant integer expression: literals, identifiers bound in env (iota included),
+// parentheses, conversions T(x), unary + - ^ and the binary integer operators.
+func evalInt(e ast.Expr, env map[string]int64) (int64, bool) {
+	switch x := e.(type) {
+	case *ast.BasicLit:
+		switch x.Kind {
+		case token.INT:
+			v, err := strconv.ParseInt(strings.ReplaceAll(x.Value, "_", ""), 0, 64)
+			if err != nil {
+				if u, uerr := strconv.ParseUint(strings.ReplaceAll(x.Value, "_", ""), 0, 64); uerr == nil {
+					return int64(u), true
+				}
+				return 0, false
+			}
+			return v, true
+		case token.CHAR:
+			if r, _, _, err := strconv.UnquoteChar(strings.Trim(x.Value, "'"), '\''); err == nil {
+				return int64(r), true
+			}
 		}
-		for _, s := range gd.Specs {
-			vs := s.(*ast.ValueSpec)
-			for i, n := range vs.Names {
-				if i < len(vs.Values) {
-					if bl, ok := vs.Values[i].(*ast.BasicLit); ok && bl.Kind == token.INT {
-						if v, err := strconv.ParseInt(bl.Value, 0, 64); err == nil {
+		return 0, false
+	case *ast.Ident:
+		v, ok := env[x.Name]
+		return v, ok
+	case *ast.ParenExpr:
+		return evalInt(x.X, env)
+	case *ast.CallExpr: // a conversion such as byte(x), uint16(x), fileType(x)
+		if len(x.Args) == 1 && x.Ellipsis == token.NoPos {
+			switch x.Fun.(type) {
+			case *ast.Ident, *ast.SelectorExpr:
+				return evalInt(x.Args[0], env)
+			}
+		}
+		return 0, false
+	case *ast.UnaryExpr:
+		v, ok := evalInt(x.X, env)
+		if !ok {
+			return 0, false
+		}
+		switch x.Op {
+		case token.ADD:
+			return v, true
+		case token.SUB:
+			return -v, true
+		case token.XOR:
+			return ^v, true
+		}
+		return 0, false
+	case *ast.BinaryExpr:
+		a, ok1 := evalInt(x.X, env)
+		b, ok2 := evalInt(x.Y, env)
+		if !ok1 || !ok2 {
+			return 0, false
+		}
+		switch x.Op {
+		case token.ADD:
+			return a + b, true
+		case token.SUB:
+			return a - b, true
+		case token.MUL:
+			return a * b, true
+		case token.QUO:
+			if b != 0 {
+				return a / b, true
+			}
+		case token.REM:
+			if b != 0 {
+				return a % b, true
+			}
+		case token.SHL:
+			if b >= 0 && b < 63 {
+				return a << uint(b), true
+			}
+		case token.SHR:
+			if b >= 0 && b < 64 {
+				return a >> uint(b), true
+			}
+		case token.OR:
+			return a | b, true
+		case token.AND:
+			return a & b, true
+		case token.XOR:
+			return a ^ b, true
+		case token.AND_NOT:
+			return a &^ b, true
+		}
+		return 0, false
+	}
+	return 0, false
+}
+
+// intConsts evaluates the package-level integer constants of the given files (one package): constant
+// expressions over literals and other constants of the package, iota and implicit repetition included.
+// Constants may refer to constants declared later or in another file, hence the fixpoint.
+func intConsts(files ...*ast.File) map[string]int64 {
+	env := map[string]int64{}
+	for pass := 0; pass < 8; pass++ {
+		added := false
+		for _, f := range files {
+			if f == nil {
+				continue
+			}
+			for _, d := range f.Decls {
+				gd, ok := d.(*ast.GenDecl)
+				if !ok || gd.Tok != token.CONST {
+					continue
+				}
+				var last []ast.Expr // implicit repetition of the previous expression list
+				for idx, s := range gd.Specs {
+					vs := s.(*ast.ValueSpec)
+					vals := vs.Values
+					if len(vals) == 0 {
+						vals = last
+					} else {
+						last = vals
+					}
+					for i, n := range vs.Names {
+						if i >= len(vals) || n.Name == "_" {
+							continue
+						}
+						if _, done := env[n.Name]; done {
+							continue
+						}
+						_, hadIota := env["iota"]
+						env["iota"] = int64(idx)
+						v, ok := evalInt(vals[i], env)
+						if !hadIota {
+							delete(env, "iota")
+						}
+						if ok {
 							env[n.Name] = v
+							added = true
 						}
 					}
 				}
 			}
 		}
+		if !added {
+			break
+		}
 	}
+	delete(env, "iota")
 	return env
+}
+
+// pkgFiles parses every non-test Go file of a package directory of the repository (hook files excluded).
+func pkgFiles(dir string) []*ast.File {
+	var out []*ast.File
+	ents, err := os.ReadDir(filepath.Join(fx.Repo(), dir))
+	if err != nil {
+		return nil
+	}
+	for _, e := range ents {
+		n := e.Name()
+		if e.IsDir() || !strings.HasSuffix(n, ".go") || strings.HasSuffix(n, "_test.go") || strings.HasPrefix(n, "zz_verif_hooks") {
+			continue
+		}
+		if f := fx.Parse(filepath.ToSlash(filepath.Join(dir, n))); f != nil {
+			out = append(out, f)
+		}
+	}
+	return out
 }
 
 func Extract() *fx.Group {
@@ -42,6 +182,7 @@ func Extract() *fx.Group {
 	// --- FAT attribute byte: which bit each flag sets in toBytes
 	ff := fx.Parse("filesystem/fat12/directoryentry.go")
 	tb := fx.FindFunc(ff, "directoryEntry", "toBytes")
+	fatEnv := intConsts(pkgFiles("filesystem/fat12")...)
 	bits := map[string]int64{}
 	if tb != nil {
 		ast.Inspect(tb.Body, func(n ast.Node) bool {
@@ -58,10 +199,9 @@ func Extract() *fx.Group {
 				if !ok || as.Tok != token.OR_ASSIGN || fx.Src(as.Lhs[0]) != "dosBytes[11]" {
 					continue
 				}
-				if bl, ok := as.Rhs[0].(*ast.BasicLit); ok {
-					if v, err := strconv.ParseInt(bl.Value, 0, 64); err == nil {
-						bits[strings.TrimPrefix(cond, "de.")] = v
-					}
+				// a literal, or a constant expression over the package's constants (attrHidden, 1 << 1, byte(attrHidden) …)
+				if v, ok := evalInt(as.Rhs[0], fatEnv); ok {
+					bits[strings.TrimPrefix(cond, "de.")] = v
 				}
 			}
 			return true
@@ -77,7 +217,7 @@ func Extract() *fx.Group {
 	}
 	g.Nats("fatAttrBits", fat)
 	// --- ext4 permission masks and type codes
-	env := intConsts(fx.Parse("filesystem/ext4/inode.go"))
+	env := intConsts(pkgFiles("filesystem/ext4")...)
 	var masks, types []int64
 	for _, k := range []string{"filePermissionsOwnerExecute", "filePermissionsOwnerWrite", "filePermissionsOwnerRead",
 		"filePermissionsGroupExecute", "filePermissionsGroupWrite", "filePermissionsGroupRead",
